@@ -94,6 +94,11 @@ func TestVerif_C29_Group(t *testing.T) {
 	l := newSimpleLedgerWithConsensusVersion(tt, gen, cv, config.GetDefaultLocal(), simpleLedgerLogger(quiet))
 	defer l.Close()
 
+	genHdr, err := l.BlockHdr(0)
+	if err != nil {
+		t.Fatalf("BlockHdr(0): %v", err)
+	}
+	genesisID := genHdr.GenesisID
 	serial := 0
 	ev := nextBlock(tt, l)
 	inBlock := 0
@@ -105,6 +110,9 @@ func TestVerif_C29_Group(t *testing.T) {
 		to := rapid.IntRange(0, len(addrs)-1).Draw(t, "to")
 		tx := &txntest.Txn{Type: "pay", Sender: addrs[from], Receiver: addrs[to], Amount: uint64(rapid.IntRange(0, 1000).Draw(t, "amt")),
 			Note: fmt.Sprintf("c29g-%d", serial)}
+		if rapid.Bool().Draw(t, "withGenesisID") {
+			tx.GenesisID = genesisID // stored in the block as HasGenesisID
+		}
 		fillDefaults(tt, l, e, tx)
 		return tx.Txn()
 	}
@@ -129,7 +137,7 @@ func TestVerif_C29_Group(t *testing.T) {
 		reject := func(what string, b bookkeeping.Block) {
 			vk.Label("block-reject:" + what)
 			if err := validate(b); err == nil {
-				sticky = fmt.Sprintf("Validate accepted a block with %s (round %d, %d txns)", what, b.Round(), len(b.Payset))
+				sticky = fmt.Sprintf("Validate accepted a block with %s (round %d, %d txns); ContentsMatchHeader()=%v for the accepted bytes", what, b.Round(), len(b.Payset), b.ContentsMatchHeader())
 				t.Fatalf("%s", sticky)
 			}
 		}
@@ -150,6 +158,40 @@ func TestVerif_C29_Group(t *testing.T) {
 			m := blk
 			m.Payset = append(append(transactions.Payset(nil), blk.Payset...), blk.Payset[n-1])
 			reject("last entry duplicated", m)
+		}
+		// Payset ENTRY-ENCODING tampering, header untouched. The header commits to the encoded SignedTxnInBlock entries,
+		// so an entry that decodes to the same transaction but is encoded differently does not match the header; the
+		// block must be refused (DecodeSignedTxn documents each of these as an error or they change the decoded txn).
+		if n >= 1 {
+			i := rapid.IntRange(0, n-1).Draw(t, "encEntry")
+			tamper := func(what string, f func(e *transactions.SignedTxnInBlock)) {
+				m := blk
+				m.Payset = append(transactions.Payset(nil), blk.Payset...)
+				f(&m.Payset[i])
+				vk.Label("block-reject:" + what)
+				if err := validate(m); err == nil {
+					sticky = fmt.Sprintf("Validate accepted a block whose payset entry %d has %s, header untouched (round %d, %d txns); ContentsMatchHeader()=%v for the accepted bytes",
+						i, what, m.Round(), n, m.ContentsMatchHeader())
+					t.Fatalf("%s", sticky)
+				}
+			}
+			tamper("HasGenesisHash set although the protocol implies the genesis hash", func(e *transactions.SignedTxnInBlock) { e.HasGenesisHash = true })
+			tamper("HasGenesisID flipped", func(e *transactions.SignedTxnInBlock) { e.HasGenesisID = !e.HasGenesisID })
+			tamper("the genesis hash spelled out in the transaction body", func(e *transactions.SignedTxnInBlock) { e.SignedTxn.Txn.GenesisHash = blk.BlockHeader.GenesisHash })
+			tamper("the genesis id spelled out in the transaction body (flag cleared)", func(e *transactions.SignedTxnInBlock) {
+				e.SignedTxn.Txn.GenesisID = blk.BlockHeader.GenesisID
+				e.HasGenesisID = false
+			})
+			tamper("the genesis id spelled out in the transaction body (flag set)", func(e *transactions.SignedTxnInBlock) {
+				e.SignedTxn.Txn.GenesisID = blk.BlockHeader.GenesisID
+				e.HasGenesisID = true
+			})
+			mAll := blk
+			mAll.Payset = append(transactions.Payset(nil), blk.Payset...)
+			for k := range mAll.Payset {
+				mAll.Payset[k].HasGenesisHash = true
+			}
+			reject("HasGenesisHash set on every entry", mAll)
 		}
 		m := blk
 		m.NativeSha512_256Commitment[rapid.IntRange(0, 31).Draw(t, "cb")] ^= 1
@@ -183,6 +225,10 @@ func TestVerif_C29_Group(t *testing.T) {
 			tt.Fatalf("AddValidatedBlock: %v", err)
 		}
 		l.WaitForCommit(l.Latest())
+		if stored, err := l.Block(l.Latest()); err != nil || !stored.ContentsMatchHeader() {
+			sticky = fmt.Sprintf("stored block %d does not match its header (err %v)", l.Latest(), err)
+			t.Fatalf("%s", sticky)
+		}
 		vk.Label("block-accepted")
 		ev = nextBlock(tt, l)
 		inBlock = 0
